@@ -231,7 +231,7 @@ public:
             const XalanDOMChar*     data,
             size_type               theLength)
     {
-        for( size_type i = 0; i < theLength; )
+        for( size_type i = 0; i < theLength; ++i)
         { 
             i = write(data, i , theLength, m_exceptionFunctor); 
         }
@@ -247,7 +247,7 @@ public:
             const XalanDOMChar*     data,
             size_type               theLength)
     {
-        for( size_type i = 0; i < theLength; )
+        for( size_type i = 0; i < theLength; ++i)
         { 
             i = write(data, i , theLength, m_exceptionFunctor); 
         }
